@@ -38,14 +38,14 @@ class SrtParagraph:
   _EOL_SEQ_RE = re.compile(r"\n{2,}")
   # a carriage return in the text is a line terminator for SRT readers
   _LINE_BREAK_RE = re.compile(r"\r\n|\r|\n")
-  # formatting tags written by the SRT writer
-  _TAG_RE = re.compile(r"</?[biu]>|<font color=\"[^\"]*\">|</font>")
 
   def __init__(self, identifier: int):
     self._id: int = identifier
     self._begin: Optional[ClockTime] = None
     self._end: Optional[ClockTime] = None
     self._text: str = ""
+    # the text without the formatting tags
+    self._plain_text: str = ""
 
   def set_begin(self, offset: Fraction):
     """Sets the paragraph begin time code"""
@@ -70,8 +70,7 @@ class SrtParagraph:
 
   def is_only_whitespace(self):
     """Returns whether the paragraph text, formatting tags excluded, contains only whitespace or is empty"""
-    text = self._TAG_RE.sub("", self._text)
-    return len(text) == 0 or text.isspace()
+    return len(self._plain_text) == 0 or self._plain_text.isspace()
 
   def normalize_eol(self):
     """Remove line breaks at the beginning and end of the paragraph, and replace
@@ -82,6 +81,11 @@ class SrtParagraph:
   def append_text(self, text: str):
     """Appends text to the paragraph"""
     self._text += text
+    self._plain_text += text
+
+  def append_tag(self, tag: str):
+    """Appends a formatting tag to the paragraph"""
+    self._text += tag
 
   def to_string(self, sub_number: int=None) -> str:
     """Returns the SRT paragraph as a formatted string"""
